@@ -114,7 +114,7 @@ def _wasm_forbidden(exclude=()):
 
 def wasm_profile(exclude=(), **kw):
     base = dict(name="c23", ptr_bits=32, rotates=False, copyblob=False, global_refs=False, forbidden=_wasm_forbidden(exclude),
-                permute_blocks=True, max_funcs=3, max_blocks=8, distinct_cjmp_targets=True, obs_type="i64", literals=False, indirect_boost=2, observe_pct=60, swap_cjmp_arms=50)
+                permute_blocks=True, max_funcs=3, max_blocks=8, distinct_cjmp_targets=True, obs_type="i64", literals=False, indirect_boost=2, observe_pct=60, swap_cjmp_arms=50, ptr_int_casts=False)
     base.update(kw)
     return genir.Profile(**base)
 
@@ -411,6 +411,8 @@ def run_case(case, stats=None):
     info = {"translated": False, "executed": 0, "classes": [], "reject": None}
     m_ref, nbufs = build_module(case)
     m_tr, _ = build_module(case)
+    if _ptr_to_int(m_ref):
+        raise Discard("pointer -> integer cast (outside the domain: irsem's two layouts cannot vouch for address independence at wasm's small addresses)")
     init_mode = case.get("init", "stores")
     has_data = any(v.value for v in m_ref.variables) or nbufs > 0
     ins = instrument(m_ref, nbufs, init_mode)
@@ -543,6 +545,17 @@ def _nan_only(want, got):
                 for k in range(off, off + size):
                     explained[k] = True
     return all(explained)
+
+
+def _ptr_to_int(m):
+    from ppci import ir
+
+    for f in m.functions:
+        for b in f.blocks:
+            for ins in b.instructions:
+                if isinstance(ins, ir.Cast) and ins.src.ty is ir.ptr and ins.ty is not ir.ptr:
+                    return True
+    return False
 
 
 def _is_procedure(f):
@@ -848,7 +861,7 @@ def full_profile(exclude=()):
     forb = [x for x in _wasm_forbidden(exclude) if x not in set(_wasm_forbidden(()))]
     if "KF8" in exclude:
         forb += [("cast", a, b) for a, b in sorted(_SAME_SIZE_SIGN)]
-    return genir.Profile(name="c23-full", ptr_bits=32, permute_blocks=True, obs_type="i64", indirect_boost=2, observe_pct=60, swap_cjmp_arms=50, forbidden=forb)
+    return genir.Profile(name="c23-full", ptr_bits=32, permute_blocks=True, obs_type="i64", indirect_boost=2, observe_pct=60, swap_cjmp_arms=50, ptr_int_casts=False, forbidden=forb)
 
 
 def calls_for(draw, desc, profile):
